@@ -60,4 +60,89 @@ Theorem C06_parser_model_layout_free_without_asm :
   no_asm toks -> parse_file_model toks w = parse_file_model toks w'.
 Proof. exact parse_file_model_wsnl_irrelevant. Qed.
 
+(* the search model reads token types, spaces_before, content lengths, last-line lengths and the logical lines only (its signature);
+   beyond its first record it reads of the line only index, type and tokens; the first token's spaces are irrelevant at a line start *)
+From PasfmtVerif Require Import Model.WrapContexts Model.WrapSearch Model.WrapFormat Proofs.WrapSearchProofs Proofs.WrapSearchDeepProofs.
+Theorem C06_search_first_token_spaces_irrelevant :
+  forall (W : wsettings) (lvs : list lview) (fm : nat)
+    (cs : sst -> lview -> N * N -> first_decision -> sst * option solution) 
+    (i : nat) (t : LogicalLineType) (lvl : N) (tp : bool) (g : list N) 
+    (c : nat) (gi : N) (ty win fp : option TokenType) (inv : option DecisionRequirement)
+    (stk : cstack) (sp1 sp2 ln : N) (ml : option N) (kids : option lchildren)
+    (rest : list trec) (st : sst) (ws : N * N),
+  inv <> Some DR_MustNotBreak ->
+  find_optimal_solution W lvs fm cs
+    {|
+      lv_idx := i;
+      lv_type := t;
+      lv_level := lvl;
+      lv_top := tp;
+      lv_gtoks := g;
+      lv_recs :=
+        {|
+          tr_gidx := gi;
+          tr_ty := ty;
+          tr_win := win;
+          tr_fprev := fp;
+          tr_inv := inv;
+          tr_stk := stk;
+          tr_sp := sp1;
+          tr_len := ln;
+          tr_ml := ml;
+          tr_kids := kids
+        |} :: rest;
+      lv_count := c
+    |} st ws FD_Break =
+  find_optimal_solution W lvs fm cs
+    {|
+      lv_idx := i;
+      lv_type := t;
+      lv_level := lvl;
+      lv_top := tp;
+      lv_gtoks := g;
+      lv_recs :=
+        {|
+          tr_gidx := gi;
+          tr_ty := ty;
+          tr_win := win;
+          tr_fprev := fp;
+          tr_inv := inv;
+          tr_stk := stk;
+          tr_sp := sp2;
+          tr_len := ln;
+          tr_ml := ml;
+          tr_kids := kids
+        |} :: rest;
+      lv_count := c
+    |} st ws FD_Break.
+Proof. exact first_token_spaces_irrelevant. Qed.
+
+Theorem C06_search_reads_line_index_type_tokens_only :
+  forall (W : wsettings) (lvs : list lview)
+    (cs : sst -> lview -> N * N -> first_decision -> sst * option solution) 
+    (i : nat) (t : LogicalLineType) (lvl : N) (tp : bool) (g : list N) 
+    (c1 c2 : nat) (recs1 recs2 : list trec) (fuel : nat) (h : heap) 
+    (iter : N) (best : list N) (st : sst),
+  main_loop W lvs cs
+    {|
+      lv_idx := i;
+      lv_type := t;
+      lv_level := lvl;
+      lv_top := tp;
+      lv_gtoks := g;
+      lv_recs := recs1;
+      lv_count := c1
+    |} fuel h iter best st =
+  main_loop W lvs cs
+    {|
+      lv_idx := i;
+      lv_type := t;
+      lv_level := lvl;
+      lv_top := tp;
+      lv_gtoks := g;
+      lv_recs := recs2;
+      lv_count := c2
+    |} fuel h iter best st.
+Proof. exact main_loop_sig. Qed.
+
 
